@@ -367,11 +367,16 @@ def _(tier, seed):
             lines.append("%d beginbfrange" % len(ranges)); lines += ranges; lines.append("endbfrange")
         lines.append("endcmap CMapName currentdict /CMap defineresource pop end end")
         # widths
-        W, wmap = [], {}
+        W, wmap, indirect = [], {}, {}
         for _k in range(rng.randint(0, 3)):
             if rng.random() < 0.5:
                 c0 = rng.choice(list(tou) or [1]); ws = [rng.choice([0, 250, 500, 1000]) for _i in range(rng.randint(1, 3))]
-                W += [c0, ws]
+                # a width may be written as an indirect object (object 20+): only the outer array is resolved element by element by get_widths,
+                # the numbers inside the inner list reach the font as they are and are resolved when the font stores its table
+                wl = list(ws)
+                if rng.random() < 0.4:
+                    j = rng.randrange(len(wl)); indirect[20 + len(indirect)] = wl[j]; wl[j] = Ref(20 + len(indirect) - 1)
+                W += [c0, wl]
                 for i, w in enumerate(ws):
                     wmap[c0 + i] = w
             else:
@@ -396,6 +401,7 @@ def _(tier, seed):
                                                       "DescendantFonts": [Ref(6)], "ToUnicode": Ref(7)},
                 6: cidfont, 7: Stream({}, "\n".join(lines).encode()),
                 8: {"Type": Name("FontDescriptor"), "FontName": Name("Test"), "Flags": 4, "FontBBox": [0, -200, 1000, 800], "ItalicAngle": 0, "Ascent": 800, "Descent": -200, "CapHeight": 700, "StemV": 80}}
+        objs.update(indirect)
         data = build(objs, 1)
         evals += 1
         distinct.add((len(chars), len(ranges), dwk, len(W)))
